@@ -48,7 +48,7 @@ def _check_after(c: Contract, bound: Dict[str, Any], kind: str, val: Any) -> Non
                 FIRED.append((c.target, "raises-only-declared", f"{type(val).__name__}: {str(val)[:80]}"))
                 return
             cond = c.raises[allowed]
-            if cond:
+            if cond and not cond.startswith("may_"):
                 try:
                     if not clause_native(c, cond, bound, None):
                         FIRED.append((c.target, f"raises-{allowed}", "raised although the condition is false"))
